@@ -9,8 +9,10 @@
     bytes) are different keys: [xroot].
 
     The model follows the code as it is, including the empty-batch shortcut of
-    MemSet: it stores the marker nil under the PARENT hash without looking at
-    what the table holds there (finding C04-1).
+    MemSet: it leaves the marker nil under the PARENT hash unless the table
+    already holds something there (sync.Map.LoadOrStore: a tree that waits under
+    that hash, or an earlier marker, is kept).  It does not look whether the
+    parent resolves in the database.
 
     Configuration: no MVCC / prune / memTree.  EnableMavlPrefix ([s_pfx]) changes
     database keys only: every node except the root of the tree being hashed is
@@ -70,6 +72,13 @@ Definition p_del (p : pending) (r : xroot) : pending :=
 Definition p_put (p : pending) (r : xroot) (t : option tree) : pending :=
   (r, t) :: p_del p r.
 
+(** sync.Map.LoadOrStore: an existing entry (a tree or the marker) is kept *)
+Definition p_put_absent (p : pending) (r : xroot) (t : option tree) : pending :=
+  match p_get p r with
+  | Some _ => p
+  | None => p_put p r t
+  end.
+
 Record st := mk_st { s_pfx : bool; s_db : db; s_roots : list hash; s_pend : pending }.
 
 Definition st0 (pfx : bool) : st := mk_st pfx [] [] [].
@@ -109,7 +118,7 @@ Inductive out :=
 (** Store.MemSet *)
 Definition mem_set (s : st) (p : xroot) (kvs : list (bytes * bytes)) : out * st :=
   match kvs with
-  | [] => (RRoot p, with_pend s (p_put (s_pend s) p None))
+  | [] => (RRoot p, with_pend s (p_put_absent (s_pend s) p None))
   | _ =>
       match load_x s p with
       | None => (RErrNotExist, s)
